@@ -62,6 +62,16 @@ Inductive case :=
    [eq_ref] = the result (rendered right after the Load) equals the result of the same Load
    in a fresh process, [stable] = the returned object is still the same after all later Loads *)
 | CHistory (steps : list (str * bool * arrangement * option str)) (eq_ref stable : list bool)
+(* config.Load, one option, one DEGENERATE raw value [v] (empty, blanks, separators or quotes
+   only, very long, NUL/high bytes, out-of-range or malformed numbers...) from each source
+   in [srcs] alone.  [wellformed] = a fresh typed value of the option's type accepts v.
+   outs: 0 configuration returned, 1 error returned, 2 usage error (flag.ExitOnError, exit
+   status 2, observed in a child process), 3 PANIC.  [eqs] = the k-th returned configuration
+   is DeepEqual to the first returned one. *)
+| CDegenerate (name : str) (isbool wellformed : bool) (v : str) (srcs : list N)
+              (arrs : list arrangement) (outs : list N) (eqs : list bool)
+(* the ui.addr block of load() on a degenerate value: out as above *)
+| CUiAddr (v : list N) (out : N)
 (* parseKVSlice([]rune): [want] = the maps the input was generated from, when it was *)
 | CKV (input : list N) (want : option (list smap)) (impl : kvresult)
 (* lex([]rune): item type (0 text 1 equal 2 semicolon 3 comma 4 error), value, n *)
@@ -160,6 +170,51 @@ Definition check_case (c : case) : N :=
       let m := parse_flags [] no_bad [] environ fabio_prefixes None in
       let same := Bool.eqb panicked (is_panic m) in
       verdict same (negb panicked) None (negb (env_well_formed environ))
+  | CDegenerate name isbool wellformed v srcs arrs outs eqs =>
+      let bad := fun (_ raw : str) => negb wellformed && beq raw v in
+      let ms := map (fun a => match parse_flags [{| fname := name; fbool := isbool |}] bad
+                                                (a_args a) (a_env a) fabio_prefixes (a_props a) with
+                              | Ok [r] => Ok (final_raw r)
+                              | Ok _ => Err 99
+                              | Err k => Err k
+                              | Panic => Panic
+                              end) arrs in
+      let reject := fun o => (o =? 1) || (o =? 2) in
+      (* model: the command line rejects an ill-formed value (usage error); every other source
+         hands v to Value.Set (an error there is dropped, flagset.go:134,145) and Load goes on;
+         all sources that hand over v behave alike; nothing panics *)
+      let usage_ok := all2 (fun m o => Bool.eqb (o =? 2) (out_eqb (opt_eqb beq) m (Err 1))
+                                       && negb (o =? 3)
+                                       && (out_eqb (opt_eqb beq) m (Err 1)
+                                           || out_eqb (opt_eqb beq) m (Ok (Some v)))) ms outs in
+      let handed := map snd (filter (fun mo => out_eqb (opt_eqb beq) (fst mo) (Ok (Some v)))
+                                    (combine ms outs)) in
+      let alike := match handed with
+                   | [] => true
+                   | o :: r => forallb (fun x => x =? o) r
+                   end in
+      let shape := Nat.eqb (length arrs) (length outs) && Nat.eqb (length eqs) (length outs)
+                   && Nat.eqb (length srcs) (length outs) in
+      let all_eqs := forallb (fun b => b) eqs in
+      let same := usage_ok && alike && all_eqs && shape in
+      (* the property on the observables: never a panic; the same verdict from every source *)
+      let spec := forallb (fun o => negb (o =? 3)) outs
+                  && match outs with
+                     | [] => true
+                     | o :: r => forallb (fun x => Bool.eqb (reject x) (reject o)) r
+                     end
+                  && all_eqs in
+      let region := if wellformed then None else Some 3 in
+      verdict same spec region true
+  | CUiAddr v out =>
+      let m := ui_addr_step v in
+      let same := match m with
+                  | Panic => out =? 3
+                  | Err _ => out =? 1
+                  | Ok None => out =? 0
+                  | Ok (Some _) => (out =? 0) || (out =? 1)      (* parseListen decides *)
+                  end in
+      verdict same (negb (out =? 3)) None (match m with Err 2 => true | _ => false end)
   | CHistory steps eq_ref stable =>
       (* model: a history is the list of single Loads; per step the option's Value.Set
          receives what that step alone supplies, whatever was loaded before *)
